@@ -91,6 +91,15 @@ CHECKS = {
              'start with a resourceVersion test and touch only transformation targets; no request after a 404; 404 is silent), and '
              'no write on another uid than the handled one. One listed known finding (merge-patches land on a same-named successor).',
         design_ref='5/C08'),
+    'C10': dict(
+        technique='property-based testing with exact virtual time: Hypothesis-generated timer declarations (interval x sharp x idle x '
+                  'initial_delay constant/callable x backoff), run durations, outcome scripts and object-change instants in the closed loop; '
+                  'oracle = schedule laws T1-T5 evaluated on exact start/end instants (tolerance 1e-6 s)',
+        text='No overlap; next start = end + interval (non-sharp) / next grid point counted from the previous start (sharp) unless '
+             'idling postpones it to event + idle; after a failure not before end + delay/backoff (and exactly then when nothing '
+             'idles); first start = appearance + initial_delay (or later by idling); no start within idle after an essential change; '
+             'the schedule keeps going. Bounded exploration.',
+        design_ref='5/C10'),
     'C11': dict(
         technique='property-based testing: Hypothesis-generated handler declarations (errors mode x retries x timeout x backoff) and outcome '
                   'scripts for change handlers, sub-handlers, daemons, timers and startup activities, run in the closed loop (with graceful '
